@@ -373,6 +373,10 @@ func imgCases(r *hx.Run, rng *gen.Rng, per int) error {
 				switch i {
 				case 0: // a large incompressible picture shown on the whole screen: several transmission chunks
 					c.kind, c.iw, c.ih = 1, k.Range(48, 64), k.Range(48, 64)
+					if pixMode == 0 {
+						c.cols, c.rows = 20, 8
+						c.xpix, c.ypix = c.cols*8, c.rows*16 // large enough to show it unscaled
+					}
 					c.rw, c.rh, c.wx, c.wy, c.ww, c.wh, c.mv = c.cols, c.rows, 0, 0, c.cols, c.rows, 0
 				case 1: // a single pixel in the corner, then moved
 					c.iw, c.ih, c.rw, c.rh, c.wx, c.wy, c.ww, c.wh, c.mv = 1, 1, 1, 1, 0, 0, 2, 2, 1
